@@ -66,10 +66,21 @@ def make(G, eventless, fold, n, span, fold2=None, latent_only=None, grown=None):
     return env, bearing
 
 
-def run_case(G, eventless, fold, n, span, fold2=None, which="training-set", latent_only=None, descending=False, grown=None):
+def run_case(G, eventless, fold, n, span, fold2=None, which="training-set", latent_only=None, descending=False, grown=None, relen=None):
     """Returns (messages, number of episodes executed, outcome signature)."""
     msgs = []
     env, bearing = make(G, eventless, fold, n, span, fold2, latent_only, grown)
+    reset_kw = {}
+    if relen is not None:
+        # the environment is configured for n decisions and used once that way; every following episode asks for
+        # `relen` decisions through reset(episode_length=...): the starts offered must be those of the NEW length
+        with ChoiceSeam(pick=0):
+            try:
+                env.reset(fold=which)
+            except BaseException:
+                pass
+        n = relen
+        reset_kw = {"episode_length": relen + 1}      # reset() counts STATES (documented), the constructor counts decisions
 
     def shown(step):
         # what env.now() shows when the episode stands on `step`
@@ -90,7 +101,7 @@ def run_case(G, eventless, fold, n, span, fold2=None, which="training-set", late
     for pick in picks:
         with ChoiceSeam(pick=pick) as seam:
             try:
-                env.reset(fold=which)
+                env.reset(fold=which, **reset_kw)
                 refused = None
             except BaseException as ex:  # StopIteration is not an Exception subclass issue; catch all
                 refused = ex
@@ -187,6 +198,16 @@ def cases(tier):
                     for b in range(a, len(pts), 2):
                         for n in (None, 2):
                             yield (size, eventless, a, b, n, None, ("grown", i))
+    # an environment configured with one episode length and then reset with another one (sampling span set or not)
+    for size in (5, 6):
+        pts = cut_points(grid(size))
+        for n1 in range(1, size):
+            for n2 in range(1, size + 1):
+                if n1 == n2:
+                    continue
+                for span in (None, 2):
+                    for a, b in ((0, len(pts) - 1), (2, len(pts) - 3)):
+                        yield (size, (), a, b, n1, span, ("relen", n2))
     # overlapping pairs of folds on one transmitter
     G = grid(5)
     pts = cut_points(G)
@@ -205,7 +226,8 @@ def _work(chunk):
         fold = (pts[a], pts[b])
         lat = second[1] if (second and second[0] == "latent") else None
         grown = second[1] if (second and second[0] == "grown") else None
-        if lat is not None or grown is not None:
+        relen = second[1] if (second and second[0] == "relen") else None
+        if lat is not None or grown is not None or relen is not None:
             second = None
         fold2 = (pts[second[0]], pts[second[1]]) if second else None
         order = [("training-set", False)]
@@ -215,7 +237,7 @@ def _work(chunk):
             order = [("training-set", False), ("training-set", True)]
         for which, desc in order:
             try:
-                msgs, eps, sig = run_case(G, set(eventless), fold, n, span, fold2, which, lat, desc, grown)
+                msgs, eps, sig = run_case(G, set(eventless), fold, n, span, fold2, which, lat, desc, grown, relen)
             except Exception as ex:
                 msgs, eps, sig = ["building/running the case raised %r" % (ex,)], 0, None
             out["evaluations"] += 1
@@ -225,7 +247,7 @@ def _work(chunk):
                 out["nontrivial"].add((size, tuple(eventless), a, b, n, span, second, which))
             if msgs:
                 out["violations"].append(({"kind": "fold", "size": size, "eventless": list(eventless), "a": a, "b": b, "n": n, "span": span,
-                                           "second": list(second) if second else None, "which": which, "latent_only": lat, "descending": desc, "grown": grown},
+                                           "second": list(second) if second else None, "which": which, "latent_only": lat, "descending": desc, "grown": grown, "relen": relen},
                                           "; ".join(msgs[:3]), (msgs[0].split(" ")[0], n is None, bool(eventless))))
     return out
 
@@ -312,7 +334,7 @@ def run(tier, **kw):
     rep.set("samples", [{"kind": "fold", "size": 5, "eventless": [2], "a": 2, "b": 8, "n": 2, "span": 2},
                         {"kind": "wf", "N": 10, "train": 4, "test": 2, "sliding": False}])
     rep.assumptions = ["steps observed through env.now() (a bar exactly at every event-bearing grid point)",
-                       "TradingEnv(episode_length=n) means n decisions; reset(episode_length=...) is not exercised"]
+                       "TradingEnv(episode_length=n) means n decisions, reset(episode_length=k) means k states = k-1 decisions (both as documented)"]
     return rep.finish(replay)
 
 
@@ -324,7 +346,7 @@ def replay(case, **kw):
     fold = (pts[case["a"]], pts[case["b"]])
     fold2 = (pts[case["second"][0]], pts[case["second"][1]]) if case.get("second") else None
     try:
-        msgs, _, _ = run_case(G, set(case["eventless"]), fold, case["n"], case["span"], fold2, case["which"], case.get("latent_only"), case.get("descending", False), case.get("grown"))
+        msgs, _, _ = run_case(G, set(case["eventless"]), fold, case["n"], case["span"], fold2, case["which"], case.get("latent_only"), case.get("descending", False), case.get("grown"), case.get("relen"))
     except Exception as ex:
         msgs = ["building/running the case raised %r" % (ex,)]
     return msgs
